@@ -8,6 +8,9 @@ import Mathlib.Tactic.SplitIfs
 import Resvg.Lemmas.Transform
 import Resvg.Convert.Structure
 import Resvg.SvgTree.Build
+import Resvg.Generated.ConvElems
+import Mathlib.Tactic.NormNum
+import Mathlib.Tactic.Tauto
 
 namespace Resvg.Props.C10
 open Resvg Resvg.Geom Resvg.Convert Resvg.Lemmas Resvg.SvgTree
@@ -114,5 +117,45 @@ theorem C10_a_is_g : normTag "a" = "g" ∧ ∀ t, t ≠ "a" → normTag t = t :=
 /-! non-vacuity -/
 example : Transform.mapPoint (useTransform (Transform.fromScale (2 : Rat) 2) 3 4 none) (1, 1) = (8, 10) := by
   decide +kernel
+
+/-! ### an element's own group (opacity, transform, effects) is created exactly once
+
+`convert_element` either hands an element to its own converter, or wraps the generic conversion in
+`convert_group(node, …)`.  The converters of `use`, `switch` and nested `svg` create that group
+themselves, from the same node.  `Generated.routedBeforeGroup` / `Generated.buildsOwnGroup` are read off
+the current sources by the translator. -/
+
+/-- how many groups carry the element's own opacity / transform / filter / mask / clip-path -/
+def groupApplications (routed : List String) (own : List String) (tag : String) : Nat :=
+  (if routed.contains tag then 0 else 1) + (if own.contains tag then 1 else 0)
+
+/-- the opacity a reader of the tree sees for an element that asked for `o` -/
+def seenOpacity (o : Rat) (applications : Nat) : Rat := o ^ applications
+
+/-- **Every converted element kind gets its own group exactly once** (current sources): the elements
+    that build their group themselves are exactly the ones routed past the generic wrapper. -/
+theorem C10_own_group_once (tag : String) :
+    groupApplications (Generated.routedBeforeGroup.map (·.1)) Generated.buildsOwnGroup tag = 1 := by
+  unfold groupApplications
+  have h : ∀ t : String, (Generated.routedBeforeGroup.map (·.1)).contains t = Generated.buildsOwnGroup.contains t := by
+    intro t
+    simp [Generated.routedBeforeGroup, Generated.buildsOwnGroup] <;> tauto
+  rw [h tag]
+  split <;> simp
+
+/-- hence a nested `svg` (like `use`, `switch` and everything else) shows the opacity it asked for -/
+theorem C10_nested_svg_effects_once (o : Rat) :
+    seenOpacity o (groupApplications (Generated.routedBeforeGroup.map (·.1)) Generated.buildsOwnGroup "svg") = o := by
+  rw [C10_own_group_once]; simp [seenOpacity]
+
+/-- the routing before fix f95e0c7 (nested `svg` not routed past the wrapper) created the group
+    twice: `opacity="0.5"` was seen as 0.25 -/
+theorem C10_old_nested_svg_twice :
+    groupApplications ["use", "switch"] ["use", "switch", "svg"] "svg" = 2 ∧
+    seenOpacity (1/2) (groupApplications ["use", "switch"] ["use", "switch", "svg"] "svg") = 1/4 := by
+  constructor
+  · decide
+  · have : groupApplications ["use", "switch"] ["use", "switch", "svg"] "svg" = 2 := by decide
+    rw [this]; norm_num [seenOpacity]
 
 end Resvg.Props.C10
